@@ -3308,6 +3308,24 @@ def __var_direct_link_to_py_ast(
     return None
 
 
+def __is_shadowed_by_local(ctx: GeneratorContext, node: ast.expr) -> bool:
+    """Return True if the Python name at the root of the direct link `node` is also
+    the Python name of a local (such as a function parameter) visible at this point.
+
+    Python would resolve the name to the local rather than to the module global, so
+    a qualified reference to the Var must fall back on Var indirection."""
+    while isinstance(node, ast.Attribute):
+        node = node.value
+    if not isinstance(node, ast.Name):
+        return False
+    table: SymbolTable | None = ctx.symbol_table
+    while table is not None:
+        if any(entry.munged == node.id for entry in table._table.values()):
+            return True
+        table = table._parent
+    return False
+
+
 def __var_find_to_py_ast(
     var_name: str, ns_name: str, py_var_ctx: ast.expr_context
 ) -> GeneratedPyAST[ast.expr]:
@@ -3379,7 +3397,7 @@ def _var_sym_to_py_ast(
 
     # Otherwise, try to direct-link it like a Python variable
     direct_link = __var_direct_link_to_py_ast(ctx.current_ns, var, py_var_ctx)
-    if direct_link is not None:
+    if direct_link is not None and not __is_shadowed_by_local(ctx, direct_link.node):
         return direct_link
 
     if ctx.warn_on_var_indirection and not node.is_allow_var_indirection:
